@@ -142,6 +142,9 @@ func c07Job(t *testing.T, raw json.RawMessage) (any, error) {
 				if op.Sess == 1 {
 					sess = "sess-of-" + tg.Imsi
 				}
+				if op.Sess == 2 {
+					sess = "" // (an empty Session-Id is echoed as such, with everything else of the answer intact)
+				}
 				req := &cd.AccountDebitRequest{SessionId: datatype.UTF8String(sess), OriginHost: "verif-client", OriginRealm: "go-diameter",
 					DestinationRealm: "go-diameter", DestinationHost: "server", UserName: datatype.OctetString("CHF"),
 					RequestedAction: cd.RequestedAction(op.Action), CcRequestType: cd.CcRequestType(op.Type), CcRequestNumber: datatype.Unsigned32(op.Num),
@@ -312,6 +315,11 @@ func init() {
 									op.Sess, op.Num = 1, uint32((act*4+ty)%5)
 								}
 								ops = append(ops, op)
+								if !unknown && amtIdx == 2 {
+									o3 := op
+									o3.Sess = 2
+									ops = append(ops, o3)
+								}
 								if !unknown && amtIdx == 1 {
 									// the same digits under a Subscription-Id-Type that is not IMSI: no such subscriber
 									for _, st := range []int{1, 2} {
@@ -600,7 +608,7 @@ func init() {
 	checks["C08"] = func(t *testing.T) int {
 		rep := NewReport("C08")
 		pool := NewPool(0)
-		costs := []string{"1", "2", "3", "10", "100", "255", "256", "65535", "65536", "4294967295", "0", "00", "007", "0.5", "1.5", "2.50", "1.", ".5", "0.25", "0.08", "0.10", "0.125", "12.75", "010", "08", "0009", "429496729.6", "8589934592", "", "abc", "-1", "1e3", " 2", "2 ", "4294967296", "99999999999999999999", "1,5", "0x10", "١"}
+		costs := []string{"1", "2", "3", "10", "100", "255", "256", "65535", "65536", "4294967295", "0", "00", "007", "0.5", "1.5", "2.50", "1.", ".5", "0.25", "0.08", "0.10", "0.125", "12.75", "010", "08", "0009", "429496729.6", "8589934592", "4294967297", "5000000000", "42949672.97", "+4", "   ", "", "abc", "-1", "1e3", " 2", "2 ", "4294967296", "99999999999999999999", "1,5", "0x10", "١"}
 		if rep.Tier == "thorough" {
 			for i := 4; i <= 40; i++ {
 				costs = append(costs, strconv.Itoa(i*i*i+1))
